@@ -82,6 +82,10 @@ def run_verus_unit(repo, unit_name, variant, workdir, log, only_fns=None):
         log("  %s: attempt %d failed with %d semantic error(s); %s" % (vname, k + 1, len(sem), "retrying" if k + 1 < len(attempts) else "giving up"))
     res["cmd"] = r["cmd"]
     res["wall_s"] = r["wall_s"]
+    synt, problems = syntactic_checks(repo, unit)
+    res["syntactic_checks"] = synt
+    if getattr(bu, "generated_fresh", None):
+        res["generated"] = bu.generated_fresh
     fr = V.function_results(r)
     crate = bu.name
     res["solver_s"] = sum(v["time_us"] for v in fr.values()) / 1e6
@@ -116,6 +120,9 @@ def run_verus_unit(repo, unit_name, variant, workdir, log, only_fns=None):
         if expected is None:
             expected = [it.qualname() for it in bu.items if hasattr(it, "body_src")]
         missing = [e for e in expected if not any(k.split("::")[-1] == e for k in fr)]
+        if problems:
+            res["status"] = "undecided"
+            res["undecided"].extend(problems)
         if missing:
             res["status"] = "undecided"
             res["undecided"].append("functions not verified by this run (no SMT query): %s" % missing)
@@ -184,6 +191,50 @@ def run_verus_unit(repo, unit_name, variant, workdir, log, only_fns=None):
     return res
 
 
+def syntactic_checks(repo, unit):
+    """Token-level facts about functions that are NOT verified (listed as assumptions). A failed or
+    unlocatable syntactic check makes the unit undecided, never a violation."""
+    from .rusttok import Source, tokenize
+    out, problems = [], []
+    for sc in getattr(unit, "SYNTACTIC", []):
+        try:
+            src = Source(os.path.join(repo, sc["file"]))
+            cands = []
+            if sc.get("impl"):
+                for b in src.find_blocks("impl", sc["impl"]):
+                    cands += src.find_fn(sc["fn"], b[1] + 1, b[2])
+            else:
+                cands = src.find_fn(sc["fn"])
+            if len(cands) != 1:
+                problems.append("syntactic check: fn %s found %d times" % (sc["fn"], len(cands)))
+                continue
+            s0, fi, o, c = cands[0]
+            body = [t.text for t in src.toks[o:c + 1]]
+            pos = 0
+            ok = True
+            for pat in sc.get("ordered", []):
+                pt = [t.text for t in tokenize(pat)]
+                found = None
+                for i in range(pos, len(body) - len(pt) + 1):
+                    if body[i:i + len(pt)] == pt:
+                        found = i
+                        break
+                if found is None:
+                    ok = False
+                    problems.append("syntactic check failed in %s::%s: %r not found in order (%s)" % (sc["file"], sc["fn"], pat, sc["why"]))
+                    break
+                pos = found + len(pt)
+            for pat in sc.get("absent", []):
+                pt = [t.text for t in tokenize(pat)]
+                if any(body[i:i + len(pt)] == pt for i in range(len(body) - len(pt) + 1)):
+                    ok = False
+                    problems.append("syntactic check failed in %s::%s: %r present (%s)" % (sc["file"], sc["fn"], pat, sc["why"]))
+            out.append({"fn": sc["fn"], "file": sc["file"], "why": sc["why"], "ok": ok})
+        except Exception as e:
+            problems.append("syntactic check error: %r" % (e,))
+    return out, problems
+
+
 def canary_check(repo, unit_name, variant, workdir):
     """The unit re-verified with one postcondition negated must fail."""
     unit = importlib.import_module("units." + unit_name)
@@ -200,7 +251,7 @@ def canary_check(repo, unit_name, variant, workdir):
     r = V.run_verus(bu, os.path.join(workdir, unit_name + "_canary"), rlimit=30)
     sem = [d for d in r["diags"] if d["level"] == "error" and V.is_semantic(d["msg"])]
     if r["rc"] != 0 and sem:
-        return {"unit": unit_name, "canary": "fails-as-required", "fn": can["fn"], "negated": can["replace"][0], "message": sem[0]["msg"]}
+        return {"unit": unit_name, "canary": "fails-as-required", "fn": can["fn"], "negated": can.get("negated") or can["replace"][0], "message": sem[0]["msg"]}
     if r["rc"] == 0:
         return {"unit": unit_name, "canary": "VERIFIED-BUT-MUST-FAIL", "fn": can["fn"]}
     return {"unit": unit_name, "canary": "undecided", "detail": r["stderr"][-1500:]}
@@ -357,6 +408,8 @@ def write_evidence(prop, tier, seed, spec, results, canaries, t0, violations=0, 
     for r in results:
         for k, v in (r.get("assumption_scan") or {}).items():
             trusted.append("%s: %d x %s in generated unit (see units/%s.py prelude)" % (r["unit"], v, k, r["unit"].split("[")[0]))
+        for sc in r.get("syntactic_checks", []) or []:
+            trusted.append("%s: ASSUMED, only checked syntactically: %s (%s::%s)" % (r["unit"], sc["why"], sc["file"], sc["fn"]))
         for s in r.get("stubs", []):
             trusted.append("%s: kani stub %s" % (r["unit"], s))
         for fn in r.get("functions", []):
